@@ -716,7 +716,7 @@ class PathRunner:
         try:
             # last stage: functions walking long object chains (supvisors -> context -> instances -> status -> id -> view,
             # plus the collections they build) have no counter-model with fewer than ~20 objects
-            for es, er, ms in ((2, 5, 3000), (4, 9, 3000), (3, 22, 20000)):
+            for es, er, ms in ((2, 5, 3000), (4, 9, 3000), (3, 14, 10000), (3, 20, 20000)):
                 try:
                     r, m, info = finite.refute(self.pc, neg, es, er, ms, self.str_consts)
                 except z3.Z3Exception as e:
